@@ -97,14 +97,16 @@ def probes(has_rec, opened):
 
 def gen_script(tier, rng, cfg):
     """-> list of script lines, list of meta (case id, kind) per line"""
-    depth_full, depth_core = (2, 3) if tier == 'quick' else (3, 4)
+    # full probe set up to depth_full, core probes up to depth_core, the mode calls themselves (+ a few probes,
+    # with the state read back after every call) up to depth_mini
+    depth_full, depth_core, depth_mini = (2, 3, 3) if tier == 'quick' else (3, 4, 5)
     lines, meta = [], []
     ncase = 0
     starts = [('created', 1), ('openrw', 1), ('openro', 1), ('created', 0), ('openrw', 0), ('openro', 0)]
     for kind, has_rec in starts:
         opened = kind != 'created'
         PR = probes(has_rec, opened)
-        maxd = depth_core if has_rec else min(depth_core, 2 if tier == 'quick' else 3)
+        maxd = depth_mini if (has_rec and kind != 'openro') else (depth_core if has_rec else min(depth_core, 2 if tier == 'quick' else 3))
         for d in range(0, maxd + 1):
             for seqc in itertools.product(MODE_CALLS, repeat=d):
                 # prefixes: all of them on short histories, a seeded one on the long ones
@@ -128,7 +130,7 @@ def gen_script(tier, rng, cfg):
                     for c in seqc:
                         lines.append('C ' + c); meta.append((cid, 'C', pend))
                     for p, core in PR:
-                        if closed_early:
+                        if closed_early or d > depth_core:
                             take = p in MINI
                         else:
                             take = full or core
@@ -153,7 +155,7 @@ def mode_of(word):
     return 'define' if word & 0x2000 else ('indep' if word & 0x4000 else 'coll')
 
 
-def run_harness(hexe, script_lines, wd, tag, nranks=1, timeout=1500):
+def run_harness(hexe, script_lines, wd, tag, nranks=1, timeout=1500, safe='0'):
     sp = os.path.join(wd, tag + '.script')
     rp = os.path.join(wd, tag + '.result')
     fd = os.path.join(wd, tag + '.files')
@@ -161,7 +163,7 @@ def run_harness(hexe, script_lines, wd, tag, nranks=1, timeout=1500):
     with open(sp, 'w') as f:
         f.write('\n'.join(script_lines) + '\n')
     rc, out, err = mpirun(nranks, [hexe, sp, rp, fd, str(timeout - 20)], timeout=timeout,
-                          env={'PNETCDF_SAFE_MODE': '0', 'PNETCDF_HINTS': ''})
+                          env={'PNETCDF_SAFE_MODE': safe, 'PNETCDF_HINTS': ''})
     try:
         res = open(rp).read().split('\n')
     except OSError:
@@ -390,14 +392,17 @@ def run_check(tier, seed):
         sl, sm = [], []
         for ln, m in zip(lines, meta):
             if m[0] % step_k == off:
-                # with more than one process a collective varn call that fails an ARGUMENT test still takes part
-                # in the collective wait (NC_REQ_ZERO) and ncmpio_wait(1, {NC_REQ_NULL}) then completes the user's
-                # single pending request through the extract_reqs shortcut (defect F4, property C02) — not a mode
-                # matter and not modelled here: such probes are left out of the multi-rank sample
-                w = ln.split()
-                if m[2] and len(w) > 7 and w[1] == 'rw' and w[3] == '1' and w[7] == 'varn':
-                    continue
+                # cfg bit 1 = more than one process: the model then follows the NC_REQ_ZERO participation of
+                # collective calls whose argument tests fail (Drv.waitNull: the extract_reqs shortcut, defect F4 of C02)
+                if ln.startswith('S '):
+                    w = ln.split()
+                    ln = 'S %s %s %d' % (w[1], w[2], int(w[3]) | 2)
                 sl.append(ln); sm.append(m)
+        # witness of error_is_noop_multi_counterexample, always replayed on 2 processes: one pending iput, then
+        # ncmpi_put_varn_int_all(varid = NC_GLOBAL)
+        wit = ['S openrw 1 %d' % (cfg | 2), 'C post iput f 0 0 vara', 'P rw 1 1 g 0 0 varn', 'P rw 1 1 g 0 0 vara', 'E']
+        sl = wit + sl
+        sm = [(-1, l[0], True) for l in wit] + sm
         if sl:
             rc2, cres2, err2 = run_harness(hexe, sl, wd, 'np2', nranks=2)
             drc2, lres2 = run_driver(sl)
@@ -405,10 +410,40 @@ def run_check(tier, seed):
                 V.broken_tie('2-rank harness run crashed / timed out (deadlock = alarm)',
                              dict(c_rc=rc2, c_lines=len(cres2), script_lines=len(sl), last=cres2[-3:], stderr=err2[-800:]))
                 return V.finish()
+            V.cov['witness_pending_iput_then_put_varn_all_NC_GLOBAL_on_2_ranks'] = cres2[2]
             t_, p_ = compare(sl, sm, cres2, lres2, V, stats, 'np2')
             tie += t_; prop += p_
             log('[S4] 2-rank sample: %d lines in %.1fs' % (len(sl), t2.s()))
         V.cov['two_rank_lines'] = len(sl)
+        # the witness of flags_agree_bits_counterexample / one_mode_dispatcher_counterexample as seen on the real objects
+        try:
+            for i in range(len(lines) - 3):
+                if lines[i] == 'S created 1 %d' % cfg and lines[i + 1:i + 4] == ['C enddef', 'C begin', 'C redef']:
+                    f = parse_fields(cres[i + 3].split())
+                    V.cov['witness_create_enddef_begin_redef'] = 'PNC.flag&0xF000=%s NC.flags&0xF000=%s' % (f['D'], f['N'])
+                    break
+        except Exception:
+            pass
+        # ---- safe-mode sample: with PNETCDF_SAFE_MODE=1 the dispatcher of ncmpi_fill_var_rec does return its error
+        #      (through the MPI_Allreduce branch), i.e. the library runs the `Cfg.repaired` configuration of the
+        #      model — the one `matches_spec` is proved for.  Same comparison, cfg = 1.
+        t3 = Timer()
+        off2 = rng.below(step_k)
+        sl3, sm3 = [], []
+        for ln, m in zip(lines, meta):
+            if m[0] % step_k == off2:
+                sl3.append(('S %s %s 1' % tuple(ln.split()[1:3])) if ln.startswith('S ') else ln); sm3.append(m)
+        if sl3:
+            rc3, cres3, err3 = run_harness(hexe, sl3, wd, 'safe', safe='1')
+            drc3, lres3 = run_driver(sl3)
+            if rc3 != 0 or len([x for x in cres3 if x]) < len(sl3) or 'TIMEOUT' in cres3:
+                V.broken_tie('safe-mode harness run crashed / timed out',
+                             dict(c_rc=rc3, c_lines=len(cres3), script_lines=len(sl3), last=cres3[-3:], stderr=err3[-800:]))
+                return V.finish()
+            t_, p_ = compare(sl3, sm3, cres3, lres3, V, stats, 'safe')
+            tie += t_; prop += p_
+            log('[S4] safe-mode sample (model configuration `repaired`): %d lines in %.1fs' % (len(sl3), t3.s()))
+        V.cov['safe_mode_lines'] = len(sl3)
         # ---- isolated replay of the witness with an unchecked varid (may crash: separate processes)
         crash_results = {}
         for v, doc in (('b', -49), ('g', -50)):
@@ -441,7 +476,7 @@ def run_check(tier, seed):
                          'num_rec_vars, file-bytes-changed and file-exists are compared with the model and the returned code / mode / '
                          'no-effect rule with the documented automaton.  non-trivial = the call was rejected or changed the state; '
                          'distinct = distinct (real state before, call) pairs') % (
-                             ('3', '2') if tier == 'quick' else ('4', '3'))
+                                 ('3', '2') if tier == 'quick' else ('5 (depth 5: mode calls and a few probes only)', '3'))
         V.cov['distribution'] = dict(calls_by_kind=stats['by_kind'], codes_returned={str(k): v for k, v in sorted(stats['errors'].items())},
                                      cases=ncase)
         V.cov['samples'] = [[l for l, m in zip(lines, meta) if m[0] == c][:12] for c in (1, max(1, ncase // 3), max(1, ncase // 2))] + [
@@ -463,7 +498,7 @@ def run_check(tier, seed):
             call = history[-1][2:]
             sig = signature(call, why)
             if V.failing_input(sig, 'history %s: %s' % (' ; '.join(history), why),
-                               dict(script=history, ranks=1 if tag == 'np1' else 2, implementation=c, documented=ls,
+                               dict(script=history, ranks=2 if tag == 'np2' else 1, safe_mode=(tag == 'safe'), implementation=c, documented=ls,
                                     harness='harness/c14_mode.c + lean/Driver/C14.lean'),
                                tag='in%d' % new_fail):
                 if sig not in seen_sig:
